@@ -205,6 +205,7 @@ class Interp:
         self.flags = set()
         self.min_den = math.inf
         self.geo_by_domain = {}  # repr(mesh) -> Geometry for meshes other than the environment's
+        self.saw_nan = False
         self.max_inter = 0.0  # largest |value| of any sub-expression (cancellation of huge terms leaves visible noise)
         self.max_fn_arg = 0.0  # largest |argument| handed to a math/Bessel function (sin(2e5) amplifies rounding by 2e5)
         self._clean = None
@@ -255,6 +256,9 @@ class Interp:
             m = float(np.max(np.abs(v[0])))
             if m > self.max_inter:  # (NaN compares false)
                 self.max_inter = m
+            if m != m or (v.shape[0] > 1 and np.isnan(v).any()):
+                # an undefined sub-expression (bessel_J(1.5, x < 0), ...) that the semantics did evaluate
+                self.saw_nan = True
         self.memo[key] = v
         return v
 
